@@ -39,11 +39,20 @@ KINDS = ["dyadic", "dyadic", "equal", "tiny", "huge", "tinyhuge", "small"]
 
 
 def timetable_checks(specs, durs, starts, perm, scope, tol=0.0, cycles=None):
-    """the five clauses of C11 on start times returned by the real code -> None or a description.
-    scope "covered": the overlap clause is evaluated for every qubit-sharing pair that commutation_rules does not
-    declare commuting (no_overlap_pair_partial) and for every pair placed in the same cycle (no_overlap_same_cycle);
-    pairs declared commuting that sit in different cycles are the class of the known finding."""
-    _, Instruction, Scheduler, _, _ = sc._mods()
+    """The five clauses of C11 on start times returned by the real code -> None or a description.
+
+    Commutation is decided by the gates' actual matrices (`sc.truly_commute`), never by the code's rule.
+    For every pair i < j that shares a qubit:
+      * allow_permutation=False: j must not start before i has finished;
+      * the two do NOT truly commute: j must not start before i has finished -- except, in scope "covered", the
+        class of the C05 known finding (same name and equal targets / equal non-empty controls, family that does
+        not commute with itself), which the documented rule declares commuting;
+      * they truly commute: they must not overlap -- except, in scope "covered", pairs the DOCUMENTED rule
+        (`sc.documented_rule`, a fixed reference copy) declares commuting: that is the class of the C11 known finding
+        (no dependency edge, and conflict edges are recorded only against the members of the cycle at the moment a
+        candidate is examined -- so it also contains pairs that were candidates in the same round);
+      * two instructions of one cycle must never overlap.
+    Scope "full" evaluates ordering for every non-commuting pair and overlap for every pair."""
     n = len(specs)
     if len(starts) != n:
         return f"{len(starts)} start times for {n} instructions"
@@ -52,31 +61,61 @@ def timetable_checks(specs, durs, starts, perm, scope, tol=0.0, cycles=None):
     if abs(min(starts)) > tol:
         return f"earliest start is {min(starts)}, not 0"
     used = [sc.used_of(s) for s in specs]
-    ins = [Instruction(gate_obj(s)) for s in specs]
-    sch = Scheduler("ASAP")
     where = {}
     for ci, c in enumerate(cycles or []):
         for i in c:
             where[i] = ci
-    skipped = 0
+
+    def overlap(i, j):
+        return starts[i] < starts[j] + durs[j] - tol and starts[j] < starts[i] + durs[i] - tol
+
     for i in range(n):
         for j in range(i + 1, n):
             if not (used[i] & used[j]):
                 continue
-            commuting = bool(perm and sch.commutation_rules(j, i, ins))
-            if not commuting and starts[j] < starts[i] + durs[i] - tol:
-                return (f"instruction {j} starts at {starts[j]} before the earlier non-commuting instruction {i} "
-                        f"(start {starts[i]}, duration {durs[i]}) has finished")
+            a, b = specs[i], specs[j]
+            declared = bool(perm) and sc.documented_rule(a, b)
+            commute = bool(perm) and sc.truly_commute(a, b)
             same_cycle = i in where and where.get(i) == where.get(j)
-            if scope == "covered" and commuting and not same_cycle:
-                skipped += 1
-                continue
-            if starts[i] < starts[j] + durs[j] - tol and starts[j] < starts[i] + durs[i] - tol:
-                return (f"instructions {i} and {j} share qubit(s) {sorted(used[i] & used[j])} and overlap: "
-                        f"[{starts[i]}, {starts[i] + durs[i]}) and [{starts[j]}, {starts[j] + durs[j]})")
+            if same_cycle and overlap(i, j):
+                return (f"instructions {i} and {j} are in one cycle, share qubit(s) {sorted(used[i] & used[j])} and overlap")
+            if not commute:
+                if scope == "covered" and declared:
+                    continue        # C05 known class: declared commuting although the matrices do not commute
+                if starts[j] < starts[i] + durs[i] - tol:
+                    return (f"instruction {j} ({b[0]} {b[1]} {b[2]}) starts at {starts[j]} before the earlier instruction {i} "
+                            f"({a[0]} {a[1]} {a[2]}; start {starts[i]}, duration {durs[i]}), with which it does not commute, "
+                            "has finished")
+            else:
+                if scope == "covered" and declared:
+                    continue        # C11 known class: overlap of a pair declared commuting
+                if overlap(i, j):
+                    return (f"instructions {i} and {j} share qubit(s) {sorted(used[i] & used[j])} and overlap: "
+                            f"[{starts[i]}, {starts[i] + durs[i]}) and [{starts[j]}, {starts[j] + durs[j]})")
     if max(s + d for s, d in zip(starts, durs)) > sum(durs) + tol:
         return f"makespan {max(s + d for s, d in zip(starts, durs))} exceeds sequential duration {sum(durs)}"
     return None
+
+
+TWO_TARGET = ["SWAP", "ISWAP", "SQRTSWAP", "SQRTISWAP", "SWAPALPHA", "BERKELEY", "MS", "RZX"]
+
+
+def priority_shapes():
+    """Same-name control-less two-target gates overlapping on exactly one qubit, followed by a long gate on the
+    later one's other qubit (which gives the later one the higher priority); mirrored for ALAP.  Also a controlled
+    variant and a chain of three.  Yields (sequence of (name, targets, controls), duration numerators)."""
+    for name in TWO_TARGET + ["CNOT", "CZ", "CRX"]:
+        if name in TWO_TARGET:
+            g1, g2 = (name, [0, 1], []), (name, [1, 2], [])
+        else:
+            g1, g2 = (name, [1], [0]), (name, [2], [1])
+        for tail in (("SNOT", [2], []), ("RX", [2], []), ("X", [2], [])):
+            for d in ((1, 1, 5), (1, 2, 7), (3, 1, 4)):
+                yield [g1, g2, tail], list(d)
+                yield [tail, g2, g1], [d[2], d[1], d[0]]
+        if name in TWO_TARGET:
+            yield [(name, [0, 1], []), (name, [1, 2], []), (name, [2, 3], []), ("SNOT", [3], [])], [1, 1, 1, 6]
+            yield [("SNOT", [3], []), (name, [2, 3], []), (name, [1, 2], []), (name, [0, 1], [])], [6, 1, 1, 1]
 
 
 class C11(PropertyCheck):
@@ -205,13 +244,19 @@ class C11(PropertyCheck):
             L = rng.randint(1, 14)
             pool = P[N]
             if rng.random() < 0.5:
-                names = rng.sample(["CNOT", "X", "RX", "Z", "RZ", "CZ", "QASMU", "SWAP", "TOFFOLI", "CRX", "SNOT"], 3)
+                names = rng.sample(["CNOT", "X", "RX", "Z", "RZ", "CZ", "QASMU", "SWAP", "TOFFOLI", "CRX", "SNOT", "ISWAP", "MS"], 3)
                 pool = sc.placements(N, [n for n in names if sum(sc.LIBRARY[n][:2]) <= N] or ["X"])
             specs = specs_from([rng.choice(pool) for _ in range(L)])
             durs = duration_stream(rng, L, rng.choice(KINDS))
             m, p = rng.choice(settings)
             batch.append((specs, durs, m, p, rng.random() < 0.4))
         self._flush(ctx, res, batch, "random")
+        # priority-inverting shapes (same-name two-target gates overlapping on one qubit + a long tail) ----------
+        batch = []
+        for seq, durs in priority_shapes():
+            for m, p in settings:
+                batch.append((specs_from(seq), [d * sc.DEN for d in durs], m, p, False))
+        self._flush(ctx, res, batch, "priority-shapes")
         # degenerate ----------------------------------------------------------------------------
         batch = [([], [], m, p, False) for m, p in settings]
         batch += [(specs_from([("GLOBALPHASE", [], [])]), [sc.DEN], m, p, False) for m, p in settings]
@@ -248,13 +293,14 @@ class C11(PropertyCheck):
         if bad:
             return True, bad
         return False, f"starts {list(starts)}: valid timetable" + (
-            " (overlap clause not evaluated for pairs declared commuting that sit in different cycles)" if w.get("scope") == "covered" else "")
+            " (pairs the documented rule declares commuting are not evaluated: known findings)" if w.get("scope") == "covered" else "")
 
     def _random_witness(self, rng, floats=False):
         N = rng.choice([2, 3, 4, 5])
         P = sc.placements(N)
         if rng.random() < 0.6:
-            names = rng.sample(["CNOT", "X", "RX", "Z", "RZ", "CZ", "Y", "RY", "SWAP", "TOFFOLI", "CRX", "SNOT", "QASMU"], 4)
+            names = rng.sample(["CNOT", "X", "RX", "Z", "RZ", "CZ", "Y", "RY", "SWAP", "TOFFOLI", "CRX", "SNOT", "QASMU",
+                                "ISWAP", "SQRTSWAP", "MS", "BERKELEY", "RZX"], 4)
             P = sc.placements(N, [n for n in names if sum(sc.LIBRARY[n][:2]) <= N] or ["X"])
         L = rng.randint(2, 12)
         specs = specs_from([rng.choice(P) for _ in range(L)])
@@ -266,7 +312,15 @@ class C11(PropertyCheck):
             w.update(durs=duration_stream(rng, L, rng.choice(KINDS)), den=sc.DEN)
         return w
 
+    def _shape_witnesses(self):
+        for seq, durs in priority_shapes():
+            for m in ("ASAP", "ALAP"):
+                for p in (True, False):
+                    yield {"ins": specs_from(seq), "durs": list(durs), "den": 1, "method": m, "perm": p,
+                           "shuf": None, "scope": "covered"}
+
     def _systematic(self):
+        yield from self._shape_witnesses()
         alpha = [("CNOT", [1], [0]), ("CNOT", [2], [0]), ("CNOT", [2], [1]), ("SNOT", [2], []), ("X", [1], []),
                  ("Z", [0], []), ("SWAP", [0, 1], []), ("CZ", [1], [0])]
         for L in (1, 2, 3):
@@ -292,9 +346,13 @@ class C11(PropertyCheck):
                 yield w, d
 
     def oracle_always(self, ctx):
-        # restricted to the class the theorems cover (scope "covered"): the overlap clause is evaluated for every pair
-        # that commutation_rules does not declare commuting and for every pair inside one cycle
-        # (no_overlap_pair_partial, no_overlap_same_cycle); the other four clauses are evaluated for every list.
+        # scope "covered": commutation decided by the matrices; only the two recorded known-finding classes are skipped
+        # (see timetable_checks); the other clauses are evaluated for every list.
+        shapes = list(self._shape_witnesses())
+        for w in ctx.rng.sample(shapes, 80):
+            f, d = self.oracle_replay(ctx, w)
+            if f:
+                yield w, d
         for k in range(300):
             w = self._random_witness(ctx.rng, floats=(k % 3 == 0))
             f, d = self.oracle_replay(ctx, w)
